@@ -254,7 +254,13 @@ Section Spec.
       destruct b as [bb|]; [|reflexivity].
       rewrite (L_body (Some bb) H1 Hw3). simpl. destruct (bails name bb); reflexivity.
     - (* builtin *)
-      rewrite (L_slice ps H Hwf). destruct (any_slice (bails name) ps); reflexivity.
+      rewrite (L_slice ps H Hwf). destruct (any_slice (bails name) ps); simpl; [reflexivity|].
+      replace (builtin_gives_up (is_reg_of name) t (subst_slice (subst_reg name) ps))
+        with (builtin_gives_up (fun c => is_ident_of name c || is_reg_of name c) t ps).
+      + destruct (builtin_gives_up _ t ps); reflexivity.
+      + unfold builtin_gives_up. f_equal. f_equal.
+        destruct ps as [[|[c|] tl]|]; simpl; try reflexivity.
+        symmetry. apply subst_is_reg_of.
     - (* func: always gives up *)
       apply andb_prop in Hwf as [Hw1 Hw2].
       rewrite (L_pslice ps H Hw1). destruct (any_params name (bails name) ps); simpl; [reflexivity|].
